@@ -175,6 +175,9 @@ def masu(T, m, seed):
 
 def cas(X, T, m, R, sa):
     args = [X, T, m, R, sa]
+    if len(sa) == 32 and sa[31] & 0x80:
+        # bit 255 of sa is ignored by the scalar multiplication but not by decryption: not a valid adapter
+        return ent('cas', args, [b'\x00'])
     if len(sa) != 32:
         return ent('cas', args, err='TypeError')
     saG = _base(sa)
